@@ -61,6 +61,16 @@ def cases(rng, tier):
     n = 400 if tier == 'quick' else 10000
     for _ in range(n):
         out.append(gen_array(rng))
+    # depth maps handed over in ANY element type are stored as float32 (kapture.io.records.depth_map_to_file): small
+    # non-negative integers, exact in every type, so the expected bits are those of the same numbers as float32
+    for _ in range(n // 10):
+        h_, w_ = rng.randint(1, 5), rng.randint(1, 6)
+        vals = [rng.randrange(0, 120) for _ in range(h_ * w_)]
+        out.append({'op': 'array', 'dtype': 'float32', 'rows': h_, 'cols': w_,
+                    'bits': [int(np.array([v], dtype='<f4').view('<u4')[0]) for v in vals],
+                    'layout': rng.choice(['c', 'bigendian']), 'storage': 'depthmap', 'rewrite': False, 'kind': 'keypoints',
+                    'image': rng.choice(NAMES[:12]),
+                    'src_dtype': rng.choice(['float32', 'float64', 'float16', 'uint16', 'int16', 'uint8', 'int8', 'int32', 'uint32', 'int64'])})
     for nme in NAMES:
         for k in KINDS:
             out.append({'op': 'fpath', 'kind': k, 'type': rng.choice(['sift', 'r2d2_WASF-N8_20k']), 'image': nme})
@@ -149,6 +159,17 @@ def run_real(c):
                         member = kf.get_features_fullpath(cls, 'T', base, c['image'], th)
                         raw = th.fid.extractfile(th.content[member[0]]).read()
                         back = reader(member, dt.type, c['cols'])
+                elif c['storage'] == 'depthmap':
+                    src = np.array(a, dtype=np.float64).astype(np.dtype(c['src_dtype']))
+                    if c['layout'] == 'bigendian' and src.dtype.itemsize > 1:
+                        src = src.astype(src.dtype.newbyteorder('>'))
+                    src_before = src.copy()
+                    p = kr.get_depth_map_fullpath(base, c['image'] + '.depth')
+                    kr.depth_map_to_file(p, src)
+                    raw = open(p, 'rb').read()
+                    back = kr.depth_map_from_file(p, (c['cols'], c['rows']))
+                    if not (np.array_equal(src_before, src) and src.dtype == src_before.dtype):
+                        keep = a.copy() + 1        # reported below as operand-modified
                 else:
                     # depth maps: float32 h x w, written by array_to_file directly when already float32
                     p = kr.get_depth_map_fullpath(base, c['image'] + '.depth')
